@@ -198,6 +198,7 @@ def correspondence(run, runs, args, stats):
         mx = [float(v) for v in g[2].split()]
         mev = [[float(v) for v in t.split()] for t in g[4][1:].split(";") if t.strip()]
         margin = float(g[3])
+        tie_counts = [int(v) for v in g[5][1:].split()] if len(g) > 5 and g[5].startswith("T") else []
         tol = 1e-7
 
         def cl(a, b, t=tol):
@@ -212,18 +213,30 @@ def correspondence(run, runs, args, stats):
         # in one arithmetic and one ulp inside it in the other only adds such repetitions (the variable is placed on the bound
         # and the cost evaluated again at what is, to the tolerance, the same state), after which the two runs coincide again
         def compress(seq):
-            out = []
-            for st in seq:
+            out, first = [], []
+            for j, st in enumerate(seq):
                 if not out or len(out[-1]) != len(st) or not all(cl(u, v) for u, v in zip(out[-1], st)):
                     out.append(st)
-            return out
-        ie, me = compress(r["E"]), compress(mev)
+                    first.append(j)
+            return out, first
+        (ie, _), (me, mfirst) = compress(r["E"]), compress(mev)
+
+        def tiny_sign(k):
+            # the linear solver of the model returned, at or before the evaluation where the runs part, a component that is zero
+            # up to rounding (below 1e-9 of the largest, or exactly zero where another solver returns 1e-17): its sign decides whether a variable at a bound is released
+            # and is not the same in two solvers; the runs may then differ by when that variable is released
+            raw = mfirst[k] if k < len(mfirst) else len(mev)
+            return any(c <= raw + 1 for c in tie_counts)
         for k, (a, b) in enumerate(zip(ie, me)):
             if len(a) != len(b) or not all(cl(u, v, tolk(k)) for u, v in zip(a, b)):
-                return False, k, "distinct call-back state %d: implementation evaluates %s, model %s" % (k, a, b), margin
+                return False, k, "distinct call-back state %d: implementation evaluates %s, model %s" % (k, a, b), (0.0 if tiny_sign(k) else margin)
         n = min(len(ie), len(me))
         if len(ie) != len(me):
-            return False, n, "%d distinct states passed to call-backs, model %d" % (len(ie), len(me)), margin
+            # one run is a prefix of the other and ends there with FAILED_TO_CONVERGE: it could not lower the cost any more, by
+            # an ulp, from a point where the other arithmetic still can - a tie at the level of the last bit of the cost
+            short_status = r["status"] if len(ie) < len(me) else mst
+            stall = short_status == 3
+            return False, n, "%d distinct states passed to call-backs, model %d" % (len(ie), len(me)), (0.0 if (stall or tiny_sign(n)) else margin)
         same_reps = (len(r["E"]) - len(ie)) == (len(mev) - len(me))
         tl = tolk(n)
         if r["status"] in (0, 3) and mst in (0, 3) and (r["status"], r["it"], r["samples"]) != (mst, mit, mns) \
